@@ -2,14 +2,14 @@
 # seedbatch.sh Cxx [related props...]: import /tmp/seed/Cxx/SEED/{a,b} into /verif/seeded/Cxx{a,b}, confirm, run checks
 P=$1; shift; REL="$@"
 for x in a b; do
-  s=/tmp/seed/$P/SEED/$x; d=/verif/seeded/$P$x
+  s=${SEEDSRC:-/tmp/seed}/$P/SEED/$x; d=/verif/seeded/${SEEDPFX}$P$x
   [ -f $s/patch.diff ] || { echo "no $s"; continue; }
   mkdir -p $d; cp $s/patch.diff $s/demo.py $s/meta.json $d/ 2>/dev/null
   ( /venv/bin/python /verif/vlib/seedtool.py confirm $d > $d/confirm.json 2>&1;
     /venv/bin/python /verif/vlib/seedtool.py run $d $P $REL > $d/run.json 2>&1 ) &
 done
 wait
-for x in a b; do d=/verif/seeded/$P$x; echo "== $P$x"; python3 - <<PY
+for x in a b; do d=/verif/seeded/${SEEDPFX}$P$x; echo "== $P$x"; python3 - <<PY
 import json
 try:
     c=json.load(open("$d/confirm.json")); print(" confirm:",c["confirmed"],"demo0",c["demo_pristine_exit"],"demo1",c["demo_patched_exit"],"tests",c.get("tests_exit"),c.get("tests_tail"))
